@@ -49,8 +49,8 @@ CHECKS = {
     ),
     "C02": dict(
         oracle="invariants after every step of adversarially driven auto-reset rollouts of the built-in environments; replay digests for Python-state independence",
-        text="Every built-in environment (classic control with both solvers, MuJoCo, G1 in the thorough tier) and wrapper stacks over them are rolled out for hundreds of steps under a seeded adversary (random, corner holds, corner alternation); membership of every observation in the declared space, dtypes, finiteness and flag types are checked at every step. Exploration.",
-        note="Bounded horizon (50..600 steps per rollout); MuJoCo/G1 compile costs limit the quick tier to 3 MuJoCo environments.",
+        text="Every built-in environment (classic control with both solvers, all MuJoCo environments, the three G1 tasks) and wrapper stacks over them are rolled out for hundreds of steps under a seeded adversary (random, corner holds, corner alternation); membership of every observation in the declared space, dtypes, finiteness and flag types are checked at every step. Exploration.",
+        note="Bounded horizon (30..900 steps per rollout, 8 rollouts per class in the quick tier); cold compile of MuJoCo/G1 dominates the quick run (~3 min).",
         ref="5 (C02)",
     ),
     "C03": dict(
